@@ -72,6 +72,17 @@ CHECKS = {
             'Trusted: kernel model, CPython 3.12.1 asyncio.  A rejected request is neither success nor failure for '
             'the counter (both readings accepted).',
             'DESIGN.md section 3, C09'),
+    'C10': ('model_checking',
+            'explicit-state BFS over operation histories with a transport-count invariant evaluated in every state',
+            'Breadth-first search over histories of requests (with fault scripts incl. FIN/RST/ICMP/connect '
+            'failures), close(), event-loop changes and idle periods on one real protocol object; the invariant '
+            '(open transports <= 1; none open after a request with keep-alive off or after close(); same socket '
+            'reused by consecutive successes with keep-alive on) is evaluated at every transmission, connect and '
+            'operation boundary, and every history ends with a healthy request that must succeed with one '
+            'transmission.',
+            'Trusted: kernel model; transports are observed through is_closing() of the real transport objects the '
+            'loop created.  Bounded by history depth 3 (quick) / 4 (thorough).',
+            'DESIGN.md section 3, C10'),
 }
 
 NOT_BUILT = 'check not built yet (planned, see DESIGN.md section 3)'
